@@ -295,7 +295,7 @@ class Ev:
 
 def parse_trace(lines):
     return [Ev(l) for l in lines if l.split() and l.split()[0] in
-            ("conn", "closed", "rx", "tx", "txlink", "cb", "info", "res", "now")]
+            ("conn", "closed", "rx", "op", "tx", "txlink", "cb", "info", "res", "now")]
 
 
 def script_ops(script):
@@ -394,7 +394,7 @@ class Timeline:
             if k < len(rxops):
                 self.rx[id(m)] = parse_fragment(rxops[k][1][2])
                 k += 1
-        self.stream0 = [e for e in self.ev if e.kind in ("conn", "closed", "rx", "cb", "info", "txlink")]
+        self.stream0 = [e for e in self.ev if e.kind in ("conn", "closed", "rx", "op", "cb", "info", "txlink")]
         self.tx = [e for e in self.ev if e.kind == "tx"]
         self.res = [e for e in self.ev if e.kind == "res"]
 
@@ -431,9 +431,40 @@ class Timeline:
         return [bytes.fromhex(e.f[2]) for e in self.tx if e.t == t and e.f[2] != "-"]
 
 
+DUR_LIMIT = (1 << 64) * 10 ** 9       # first value (ns) a Rust Duration cannot hold
+
+
+def backoff_oracle(case, impl):
+    """ExponentialBackOff called directly: the delays start at min, double, are capped at max (also
+    when doubling overflows a Duration) and start over after a success"""
+    fails = []
+    def ns(x):
+        a, b = x.split(":"); return int(a) * 10 ** 9 + int(b)
+    ops = [l.split() for l in case.script.splitlines()[1:] if l.startswith("backoff")]
+    lines = [l.split() for l in impl if l.startswith("delays")]
+    if len(ops) != len(lines):
+        return [("backoff", "expected %d delay lines, saw %d" % (len(ops), len(lines)))]
+    for o, l in zip(ops, lines):
+        mn, mx, n = ns(o[1]), ns(o[2]), int(o[3])
+        got = [ns(x) for x in l[1:1 + n]]
+        if l[1 + n] != "reset" or ns(l[2 + n]) != mn:
+            fails.append(("backoff", "after on_success the first delay is not min: " + " ".join(l)[:160]))
+        for k, d in enumerate(got):
+            want = mn if k == 0 else (min(2 * got[k - 1], mx) if 2 * got[k - 1] < DUR_LIMIT else mx)
+            if d != want:
+                fails.append(("backoff", "delay %d is %d ns, expected %d ns (min %d, max %d)" % (k, d, want, mn, mx)))
+                break
+            if mn <= mx and mn > 0 and not (mn <= d <= mx):
+                fails.append(("backoff", "delay %d = %d ns outside [min, max]" % (k, d)))
+                break
+    return fails[:1]
+
+
 def c17_oracle(case, impl):
     fails = machinery_failures(impl)
-    if case.meta.get("kind") == "backoff" or not any(l.startswith("conn") for l in impl):
+    if case.meta.get("kind") == "backoff":
+        return fails + backoff_oracle(case, impl)
+    if not any(l.startswith("conn") for l in impl):
         return fails
     tl = Timeline(case, impl)
     n = tl.n
